@@ -235,6 +235,8 @@ bool has_null_buf_string(const asn_TYPE_descriptor_t *td, void *st) {
             // ... and an empty INTEGER / ENUMERATED / REAL / OID that still owns a scratch buffer (left by a starved XER decode):
             // INTEGER_compare reads buf[0] of the EMPTY operand, i.e. whatever the allocator left there
             else if(kind_primbuf(k) && ((size_t *)n.ptr)[1] == 0) found = true;
+            // ... and an empty BIT STRING that still claims unused bits (left by a failed decode): BIT_STRING_compare asserts on it
+            else if(k == K_BIT_STRING && ((const BIT_STRING_t *)n.ptr)->size == 0 && ((const BIT_STRING_t *)n.ptr)->bits_unused != 0) found = true;
         }
         return !found;
     }, 5000);
